@@ -1,0 +1,54 @@
+//go:build verif
+
+// Package c11 re-exports, for the /verif harness of property C11 only, the parts
+// of internal/rsm that a different module cannot import. Compiled only with
+// -tags verif.
+package c11
+
+import (
+	"github.com/lni/dragonboat/v4/config"
+	"github.com/lni/dragonboat/v4/internal/rsm"
+	"github.com/lni/dragonboat/v4/internal/vfs"
+	sm "github.com/lni/dragonboat/v4/statemachine"
+)
+
+type (
+	StateMachine         = rsm.StateMachine
+	Task                 = rsm.Task
+	SSMeta               = rsm.SSMeta
+	SSEnv                = rsm.SSEnv
+	ISavable             = rsm.ISavable
+	ILoadable            = rsm.ILoadable
+	IRecoverable         = rsm.IRecoverable
+	IStreamable          = rsm.IStreamable
+	INode                = rsm.INode
+	ISnapshotter         = rsm.ISnapshotter
+	IManagedStateMachine = rsm.IManagedStateMachine
+	IFS                  = vfs.IFS
+)
+
+// NewRegularSM wraps a user IStateMachine the way the node host does.
+func NewRegularSM(cfg config.Config, u sm.IStateMachine, done <-chan struct{}) IManagedStateMachine {
+	return rsm.NewNativeSM(cfg, rsm.NewInMemStateMachine(u), done)
+}
+
+// NewConcurrentSM wraps a user IConcurrentStateMachine the way the node host does.
+func NewConcurrentSM(cfg config.Config, u sm.IConcurrentStateMachine, done <-chan struct{}) IManagedStateMachine {
+	return rsm.NewNativeSM(cfg, rsm.NewConcurrentStateMachine(u), done)
+}
+
+// NewOnDiskSM wraps a user IOnDiskStateMachine the way the node host does.
+func NewOnDiskSM(cfg config.Config, u sm.IOnDiskStateMachine, done <-chan struct{}) IManagedStateMachine {
+	return rsm.NewNativeSM(cfg, rsm.NewOnDiskStateMachine(u), done)
+}
+
+// NewStateMachine is rsm.NewStateMachine.
+func NewStateMachine(m IManagedStateMachine, ss ISnapshotter, cfg config.Config, node INode, fs IFS) *StateMachine {
+	return rsm.NewStateMachine(m, ss, cfg, node, fs)
+}
+
+// Index is (*rsm.StateMachine).VerifC11Index.
+func Index(s *StateMachine) uint64 { return s.VerifC11Index() }
+
+// NewMemFS returns the in-memory file system of internal/vfs.
+func NewMemFS() IFS { return vfs.NewMemFS() }
